@@ -302,10 +302,10 @@ Proof.
   - split; [intros [] | intros [H _]; lia].
   - rewrite IH. split.
     + intros [H|[H1 H2]].
-      * inversion H; subst. split; [lia|]. now replace (j - j)%nat with O by lia.
+      * inversion H; subst. split; [lia|]. now replace (j - j)%nat with 0%nat by lia.
       * split; [lia|]. replace (j - a)%nat with (S (j - S a)) by lia. exact H2.
     + intros [H1 H2]. destruct (Nat.eq_dec j a) as [->|Hne].
-      * left. replace (a - a)%nat with O in H2 by lia. cbn in H2. now subst.
+      * left. replace (a - a)%nat with 0%nat in H2 by lia. cbn in H2. now subst.
       * right. split; [lia|]. replace (j - a)%nat with (S (j - S a)) in H2 by lia. exact H2.
 Qed.
 
